@@ -342,6 +342,7 @@ func ruleRender(p *Prog, r *Result) {
 	// binary node
 	if fn := p.MethodByName("BinaryOpExpr", "String"); fn != nil {
 		n, bad := 0, ""
+		betweenOp, hasBetween := p.constOf("Between")
 		for _, c := range sprintfIn(fn) {
 			f, _ := constString(c.Call.Args[0])
 			args := variadic(c)
@@ -360,6 +361,24 @@ func ruleRender(p *Prog, r *Result) {
 				bad = "first rendered operand is not Left"
 			}
 			if strings.Contains(f, "BETWEEN") {
+				// the special form is chosen by the operator, not by the shape of the right operand (`x in (a, b)` has a two-element list too)
+				guarded := false
+				for _, a := range dominatingAtoms(c.Block()) {
+					if a.Op != token.EQL {
+						continue
+					}
+					if s, ok := constString(a.Y); ok && s == "between" {
+						if _, isLk := a.X.(*ssa.Lookup); isLk {
+							guarded = true
+						}
+					}
+					if k, ok := constInt(a.Y); ok && hasBetween && k == betweenOp && isFieldLoad(a.X, "BinaryOpExpr", "Op") {
+						guarded = true
+					}
+				}
+				if !guarded {
+					bad = "the BETWEEN form is not chosen by the operator being between"
+				}
 				continue
 			}
 			if !isStringOf(args[2], "Right") {
